@@ -58,6 +58,14 @@ PROPS = {
                      "and timer expiry; every transcript is compared with the reference model step by step (exactly one response with an equal id and one of "
                      "result/error on the requester's connection only, batch order, nothing for id-less requests and response objects). "
                      "Non-trivial = the scenario contains a batch of >=2 members, a non-numeric id, or an incoming response object; distinct = scenario hash."),
+    "C07": scen("c07", ["default", "default", "small", "default"],
+                quick=dict(cases=1200, size=60), thorough=dict(cases=40000, size=100, budget_s=3000),
+                rule="rapidcheck-generated connection histories over raw, local-socket and WebSocket peers (every request kind, malformed and hostile "
+                     "requests, batches, raw byte blobs, repeated authenticate with a credential file, routed requests left in flight, abrupt ends) with "
+                     "injected failures of fcntl/setsockopt/getsockname/epoll_ctl/timerfd_create/timerfd_settime, ended by closing all connections or by "
+                     "SIGTERM with connections open; oracles: accounted heap, peer count, open descriptors, armed timers and live blocks equal the idle "
+                     "baseline after close-all, nothing open/allocated after exit, exit status 0, descriptor-hygiene monitor silent, sanitizers silent. "
+                     "Non-trivial = >=3 connections, >=1 abnormal end or junk input, and >=1 routed request (timer) existed; distinct = scenario hash."),
 }
 
 def plan_workers(spec, tier, nproc):
